@@ -2,6 +2,7 @@ import Pyunicorn.Lemmas.Random
 import Pyunicorn.Lemmas.RandomB
 import Pyunicorn.Lemmas.RandomC
 import Pyunicorn.Lemmas.RandomD
+import Pyunicorn.Lemmas.RandomE
 /-!
 # C17 — random models and rewirings keep their documented invariants
 
@@ -193,6 +194,18 @@ theorem geoStep_degree_pairs (c : GeoCfg) (st st' : GeoSt) (d : Nat × Nat)
     simp only [geoAccept, Bool.and_eq_true, condDeg, hm, beq_iff_eq] at acc
     obtain ⟨⟨-, h1, h2⟩, -⟩ := acc
     simp [hpq, h1, h2]
+
+/-- **link lengths over a whole run (all modes, every stream of draws)**: the links before
+and after can be matched one to one (`σ` is a bijection of the positions of the edge array with
+inverse `τ`) such that matched links differ in length by at most `r · eps`, where `r = i' − i`
+is the number of rewirings made — the link-length distribution is preserved "approximately"
+with exactly this tolerance (each single rewiring: `< eps`, `geoStep_lengths`). -/
+theorem geoRun_link_lengths (c : GeoCfg) (iterations : Nat) (draws : List (Nat × Nat))
+    (st st' : GeoSt) (h : geoRun c iterations draws st = some st') :
+    ∃ σ τ, BijOn st.edges.length σ τ ∧ st'.edges.length = st.edges.length ∧
+      ∀ p e, st.edges[p]? = some e → ∃ e', st'.edges[σ p]? = some e' ∧
+        closeBy (((st'.i : Int) - (st.i : Int)) * c.eps) (len c.D e) (len c.D e') :=
+  geoRun_match c iterations draws st st' h
 
 /-! ## cross links: `overwriteAdjacency`
 
@@ -804,6 +817,11 @@ example : (geoStep (exCfg .II) ⟨exA, [(0, 1), (2, 3)], 0⟩ (1, 1)).map (fun s
     = some ([(0, 1), (2, 3)], 0) := by decide
 example : (geoRun (exCfg .II) 2 [(0, 0), (0, 1), (1, 1), (1, 0)] ⟨exA, [(0, 1), (2, 3)], 0⟩).map
     (fun s => (s.edges, s.i)) = some ([(0, 1), (2, 3)], 2) := by decide
+
+/-- a run in model I that rewires twice; the theorem's matching exists with tolerance `2·eps` -/
+example : (geoRun (exCfg .I) 2 [(0, 1), (0, 1), (1, 1)] ⟨exA, [(0, 1), (2, 3)], 0⟩).map
+    (fun s => (s.edges, s.i)) = some ([(0, 1), (2, 3)], 2) := by decide
+example : BijOn 2 (tr 0 1) (tr 0 1) := bijOn_tr 2 0 1 (by omega) (by omega)
 
 /-- cross links: two draws hit the same cell, the loop counter still reaches 2 -/
 example : (crossSetRun 2 [(0, 0), (0, 0), (1, 1), (1, 0)] (fun _ _ => false) 0).2 = 2 := by decide
